@@ -108,9 +108,11 @@ func writeEvidence(prop, tier string, seed int64, conf propConf, m *workerResult
 }
 
 var rules = map[string]string{
+	"C14": "every schedule within the preemption bound is one race-detected execution of the real server; non-trivial = at least one preemption was taken; distinct = distinct choice sequences (the DFS never repeats one)",
 	"C13": "every schedule of the burst scenario within the preemption bound is one execution of the real server under the controlled scheduler; an execution is non-trivial when at least two PublishDiagnostics calls happened so that the schedule decided which one is last; distinct = distinct choice sequences (DFS never repeats one)",
 }
 
 var assumptions = map[string][]string{
+	"C14": {"race-invisible cooperative hand-off (plain word, //go:norace, GOMAXPROCS=1): the race detector sees only the synchronisation of the production code", "responses are compared with sequential executions in which background computations are finished or pending (never reordered); configuration refreshes may be pending at request time, superseded document analyses may not be used"},
 	"C13": {"scheduling points at sync.Map / RWMutex operations, goroutine start/end and client calls are sufficient (unsynchronised accesses are C14's business)", "jsonrpc2 handles messages serially (no AsyncHandler installed in main.go)"},
 }
